@@ -47,8 +47,12 @@ pub fn cases(rng: &mut Rng, count: usize, tier: &str) -> Vec<Case> {
         let mut o = Opts::default();
         o.max_terms = if tier == "thorough" && rng.chance(1, 10) { 60 } else { 16 };
         o.max_records = 2;
+        o.dense = rng.chance(1, 2);
+        if o.dense {
+            o.min_terms = 5;
+        }
         let mut tags = vec![];
-        let (w, f) = world::gen_world(rng, o, &mut tags);
+        let (w, f) = world::gen_world_sub_p(rng, o, &mut tags, if o.dense { 2 } else { 4 });
         let b = w.build();
         let obs = world::on_onto(&b, obs_c01);
         tags.extend(tags_for(&f));
